@@ -135,12 +135,36 @@ def check_C04(tier, seed):
         ASSUME, {"checker_cmd": "tlc MC_ZkAbacus_honest (Conservation LedgerShape HonestAccepted RefusedStartInert + liveness EventuallySettled) + Trace_ZkAbacus on harness traces"})
 
 
-def check_C05_proto(tier, seed):
+def check_C05(tier, seed):
     q = tier == "quick"
-    return campaign("C05", tier, seed, "MC_ZkAbacus_quick.cfg", "MCX_ZkAbacus_rev.cfg",
-                    sim_num=8 if q else 40, sim_depth=45 if q else 70, scales=[SCALE_BIG],
-                    drv_runs=4 if q else 30, drv_steps=80 if q else 120,
-                    drv_kwargs=dict(faults=[], w_fault=0.0, w_close=0.02, w_restore=0.0, w_replay=0.0, max_pays=5))
+    t0 = time.time()
+    c = campaign("C05", tier, seed, "MC_ZkAbacus_quick.cfg", "MCX_ZkAbacus_rev.cfg",
+                 sim_num=8 if q else 40, sim_depth=45 if q else 70, scales=[SCALE_BIG],
+                 drv_runs=4 if q else 30, drv_steps=80 if q else 120,
+                 drv_kwargs=dict(faults=[], w_fault=0.0, w_close=0.02, w_restore=0.0, w_replay=0.0, max_pays=5))
+    # revocation pairs: model of generation / decoding + real pairs validated against it
+    m2 = tlc_model("RevPair", "MC_RevPair.cfg", workers=4, name="mc_revpair", must_cover=["GenStep", "Decode"])
+    d = os.path.join(WORK, "C05_run")
+    tp = os.path.join(d, "revpair.trace.ndjson")
+    harness(["revpair", "--out", tp, "--seed", seed, "--n", 60 if q else 2000])
+    v = validate_trace("Trace_RevPair", "Trace_RevPair.cfg", tp, name="trace_C05_revpair")
+    events = [json.loads(l) for l in open(tp)]
+    if not v["accepted"]:
+        e = events[v["matched"]]
+        raise Violation("C05", f"revocation pair event rejected by Trace_RevPair: case '{e.get('case', 'generation')}' out={e.get('out')}",
+                        {"kind": "revpair", "property": "C05", "seed": seed, "event": e, "n": 60 if q else 2000})
+    mc = [e for e in events if e["ev"] == "mcomplete"]
+    c["model"]["distinct"] += m2["distinct"]; c["model"]["generated"] += m2["generated"]
+    c["events"] += len(events); c["runs"] += 1
+    c["classes"] |= {("revpair", e["ev"], e.get("case", ""), e["out"]) for e in events}
+    c["samples"] = [e for e in events if e["ev"] == "pairdecode"][:3] + c["samples"]
+    c["wall"] = time.time() - t0
+    return evidence_from("C05", tier, seed, c,
+        "protocol part: every accepted payment of TLC walks / random runs is completed with wrong revocation candidates (pair of the new state, right pair + wrong blinding factor, "
+        "foreign pair, both wrong; repeated with identical material) before the right one, TLC checks token issued iff the candidate opens the commitment and the pending payment is unchanged on refusal; "
+        "pair part: pairs generated under chosen secrets (incl. secrets whose digest has the modulus' top byte but is not canonical) and decoded byte strings (valid, lock / secret / index altered, "
+        "non-canonical digest offered reduced and raw, random) with digest, canonicity and equality recomputed independently; distinct = event classes",
+        ASSUME, {"checker_cmd": "tlc MC_ZkAbacus (TokenIffOpens TokenOnlyAfterRevocation) + tlc RevPair (GeneratedWellFormed FirstCanonical DecodeExact Terminates) + Trace_ZkAbacus + Trace_RevPair"})
 
 
 def check_C20(tier, seed):
